@@ -402,13 +402,22 @@ func specToGo(s string, resultName string) string {
 			return fmt.Sprintf("__%s(int(%s), int(%s), func(%s int) bool { return %s })", q, lo, hi, v, body)
 		}
 	}
+	// a quantifier extends to the end of the expression; an implication that
+	// starts before the first quantifier is the outer connective
+	qpos, qcon := -1, ""
 	for _, q := range []string{"forall ", "exists "} {
 		for _, con := range []string{"&& ", "|| "} {
-			if i := indexTop(s, con+q); i > 0 {
-				// a quantifier extends to the end of the expression
-				return specToGo(s[:i], resultName) + " " + con + specToGo(s[i+len(con):], resultName)
+			if i := indexTop(s, con+q); i > 0 && (qpos < 0 || i < qpos) {
+				qpos, qcon = i, con
 			}
 		}
+	}
+	ipos := indexTop(s, "==>")
+	if j := indexTop(s, "<==>"); j >= 0 && (ipos < 0 || j <= ipos) {
+		ipos = j
+	}
+	if qpos > 0 && (ipos < 0 || qpos < ipos) {
+		return specToGo(s[:qpos], resultName) + " " + qcon + specToGo(s[qpos+len(qcon):], resultName)
 	}
 	if i := indexTop(s, "<==>"); i >= 0 {
 		if racMode {
